@@ -333,6 +333,53 @@ def check_resumed_objects(chk):
         shutil.rmtree(tmp, ignore_errors=True)
 
 
+def check_second_analysis(chk):
+    """the same `Aspire` object analyses a second data set with the same proposal and the same sampler configuration: the user replaces
+    `log_likelihood` / `log_prior` (public attributes; `enable_pool` itself swaps them) between two `sample_posterior` calls.  Every set the
+    SECOND call hands back or records stores the likelihood and prior the object has NOW, at the row's coordinates."""
+    from .. import aspire_level as al
+
+    for sampler, skw in (("importance", dict(n_samples=40)),
+                         ("smc", dict(n_samples=14, sampler_kwargs={"n_steps": 1}, adaptive=False, n_steps=3)),
+                         ("minipcn", dict(n_samples=10, n_steps=3))):
+        for swap in ("likelihood", "prior", "both"):
+            case = {"level": "second_analysis", "sampler": sampler, "replaced": swap}
+            chk.count("second_analysis")
+            chk.case(None, json.dumps(case))
+            try:
+                t1 = smcrun.Target(2, center=1.0, width=0.5, half=10.0)
+                t2 = smcrun.Target(2, center=-0.7 if swap != "prior" else 1.0, width=0.9 if swap != "prior" else 0.5, half=6.0 if swap != "likelihood" else 10.0)
+                a = al.make_aspire(t1, dims=2, flow_seed=11)
+                a.fit(al.training_samples(2, 1, center=0.2, spread=0.8))
+                with al.orng_seed(5):
+                    a.sample_posterior(sampler=sampler, **skw)
+                if swap in ("likelihood", "both"):
+                    a.log_likelihood = t2.log_likelihood
+                if swap in ("prior", "both"):
+                    a.log_prior = t2.log_prior
+                with al.orng_seed(6):
+                    out = a.sample_posterior(sampler=sampler, return_history=(sampler == "smc"), **skw)
+                smp, hist = out if isinstance(out, tuple) else (out, None)
+                sets = [("returned samples", smp)] + ([(f"history[{i}]", p_) for i, p_ in enumerate(hist.sample_history)] if hist is not None and getattr(hist, "sample_history", None) else [])
+                for name, st in sets:
+                    x = ns.to_np(st.x)
+                    for fname, fn in (("log_likelihood", t2.like_np), ("log_prior", t2.prior_np)):
+                        v = getattr(st, fname, None)
+                        if v is None:
+                            continue
+                        got, ref = ns.to_np(v), fn(x)
+                        if not np.allclose(got, ref, rtol=1e-9, atol=1e-9, equal_nan=True):
+                            j = int(np.argmax(~np.isclose(got, ref, rtol=1e-9, atol=1e-9, equal_nan=True)))
+                            chk.fail("stored log-densities are L, pi, q at the row's coordinates", dict(case, where=name),
+                                     f"second sample_posterior on the same object after replacing the {swap}: {name} row {j} stores {fname} = {got[j]!r}, "
+                                     f"the object's current function at its coordinates gives {ref[j]!r}", {"clause": "coherent", "level": "second_analysis", "field": fname})
+                            raise StopIteration
+            except StopIteration:
+                pass
+            except Exception as e:   # noqa
+                chk.fail("run total", case, repr(e)[:300], {"clause": "raise", "level": "second_analysis"})
+
+
 def run(chk: core.Check):
     r = np.random.default_rng(chk.seed + 10010)
     quick = chk.tier == "quick"
@@ -347,6 +394,7 @@ def run(chk: core.Check):
     check_pool(chk, quick)
     check_reload(chk)
     check_resumed_objects(chk)
+    check_second_analysis(chk)
     for (case, ix, ilq, ilp), rep in zip(keep, drv.batch(lines)):
         if not rep.ok:
             raise core.HarnessError(rep.err)
@@ -376,8 +424,15 @@ def replay(chk: core.Check, path: str) -> int:
     doc = json.loads(open(path).read())
     p = doc["payload"]
     cases = [p["case"]] if "case" in p else [d["case"] for d in p.get("correspondence", [])]
+    LEVELS = {"second_analysis": check_second_analysis, "resumed_object": check_resumed_objects, "reload": check_reload,
+              "pool": lambda k: check_pool(k, False)}
     for c in cases:
-        check_run(chk, dict(c["cfg"]), [], [])
+        if "cfg" in c:
+            check_run(chk, dict(c["cfg"]), [], [])
+        elif c.get("level") in LEVELS:
+            LEVELS[c["level"]](chk)      # the fixed scenario family the case belongs to is run again in full
+        else:
+            raise core.HarnessError(f"cannot replay case {c}")
     for f in chk.failures[:10]:
         print("FAIL", f["clause"], f["detail"])
     print(f"replayed {len(cases)} case(s): {len(chk.failures)} oracle failure(s)")
